@@ -606,7 +606,9 @@ func genKernel(c *ctx, i int) []string {
 			case x < 16:
 				rules = append(rules, strings.Join(append([]string{"-I", ch}, kernelRule(rng, from)...), " "))
 			default:
-				rules = append(rules, "-X "+ch)
+				if ci < 6 || ci == 8 { // never -X of a builtin chain: iptables-nft and M6 (= legacy) differ there
+					rules = append(rules, "-X "+ch)
+				}
 			}
 		}
 		lines = append(append(lines, decl...), rules...)
